@@ -23,7 +23,7 @@ S  (a) the traces of the implementation alone: every task executed exactly once,
    (b) the compiler through the mjSpec API of the tree (harness/cc/c33_compile.cc): compile twice, compile a mj_copySpec
        (taken before / after the first compile, and a copy of the copy; element counts per kind of the copies),
        mj_copyModel, usethread on/off with several procedural meshes and textures, mj_recompile state preservation
-       (unchanged spec, body added, stateful actuator added, body deleted) — bitwise comparison of every mjModel array and
+       (unchanged spec, body added, stateful actuator added, body deleted, bodies becoming / ceasing to be mocap and actuators gaining / losing activation with state kept by identity and defaults for new state) — bitwise comparison of every mjModel array and
        of the mj_saveModel byte stream.  The specs carry every element kind the mjSpec API can build without files or
        plugins and every kind of cross-reference between them (class Rich: each feature is forced at least once per run);
        a second family of specs (gen_lr_case) makes the threaded mjCModel::LengthRange run: limited joints, 2..T+1 actuators
@@ -978,6 +978,19 @@ def compile_part(ctx, drv, comp):
             hist["ok"] += 1
             if "simerror=1" in status:
                 ctx.extra["compile_cases_with_engine_error_while_stepping"] = ctx.extra.get("compile_cases_with_engine_error_while_stepping", 0) + 1
+            tg = re.search(r" tog=(\S+)", status)
+            th = ctx.extra.setdefault("recompile_toggle_cases", {"cases": 0, "body_becomes_mocap": 0, "body_stops_being_mocap": 0,
+                                                                 "new_mocap_body": 0, "actuator_gains_activation": 0,
+                                                                 "actuator_loses_activation": 0, "edited_spec_invalid": 0})
+            if tg:
+                th["cases"] += 1
+                for part in tg.group(1).split(","):
+                    for pre, name in (("M+", "body_becomes_mocap"), ("M-", "body_stops_being_mocap"), ("Mnew", "new_mocap_body"),
+                                      ("A+", "actuator_gains_activation"), ("A-", "actuator_loses_activation")):
+                        if part.startswith(pre) and int(part[len(pre):]) > 0:
+                            th[name] += 1
+                    if part == "invalid":
+                        th["edited_spec_invalid"] += 1
             mm = re.search(r"pooltasks=(\d+)", status)
             if mm and int(mm.group(1)) >= 2:
                 pooled += 1
@@ -1010,7 +1023,7 @@ def compile_part(ctx, drv, comp):
     ctx.extra["compile_cases_known_lossy_reference"] = nlate
     ctx.extra["compile_cases_with_pool_running"] = pooled
     ctx.extra["compile_checks_per_case"] = ["twice", "copyspec0", "copyspec", "copycopy", "copymodel", "thread", "recompile",
-                                            "edit", "edit2", "undo"]
+                                            "edit", "edit2", "undo", "toggle"]
 
 
 def run(ctx):
